@@ -12,8 +12,8 @@ props = [json.loads(l) for l in open(os.path.join(ROOT, "properties.jsonl"))]
 ids = [p["id"] for p in props]
 checks = []
 for pid in ids:
-    if pid not in META:
-        continue
+    if pid not in META or not os.path.exists(os.path.join(ROOT, "evidence", f"{pid}.json")):
+        continue  # a check is registered once it has produced evidence on the unchanged tree
     m = META[pid]
     checks.append(
         {
@@ -36,7 +36,7 @@ na_path = os.path.join(ROOT, "vpbt", "not_applicable.json")
 na = json.load(open(na_path)) if os.path.exists(na_path) else {}
 not_app = []
 for pid in ids:
-    if pid not in META:
+    if pid not in [c["property_id"] for c in checks]:
         not_app.append({"property_id": pid, "reason": na.get(pid, "check not built yet (work in progress; see DESIGN.md section 10)")})
 manifest = {
     "version": 1,
